@@ -17,7 +17,7 @@ fn u64_at(b: &[u8], o: usize) -> u64 {
 
 /// slot kinds: free | head (complete entry in a fixed-size table) | mhead | mpart |
 /// sized (multipart table: complete single entry or last part of a chain)
-fn classify(t: &TableDump, slot: &[u8]) -> (&'static str, u64) {
+pub fn classify(t: &TableDump, slot: &[u8]) -> (&'static str, u64) {
     if slot.len() < 10 {
         return ("bad", 0)
     }
